@@ -3,6 +3,7 @@
   `pending_acks`) agree with `Acks.add 64` / `Acks.ackedLargest`.
   Headline statements in `Props/SrcTieAcks.lean`.
 -/
+import RenetVerif.Generated.Src.Acks
 import RenetVerif.Lemmas.SrcEquiv.Prims
 import RenetVerif.Renet.Acks
 namespace RenetVerif.SrcEquiv
